@@ -241,7 +241,7 @@ func finish(id string, spec *PropSpec, tier string, seed int, runs []*Run, eng *
 		}
 		hv := map[string]interface{}{"harness": r.harness, "paths": r.paths, "path_ends": r.pathEnds, "ssa_instructions": r.steps,
 			"feasibility_queries": r.feasQ, "obligation_queries": r.oblQ, "solver_time_s": round2(r.solverTime.Seconds()), "wall_s": round2(r.wall.Seconds()),
-			"covers": sortedKeys(r.covers), "bounds": r.spec.Bounds, "params": r.params, "obligations": r.obl}
+			"witnesses_diverged_natively": r.diverged, "covers": sortedKeys(r.covers), "bounds": r.spec.Bounds, "params": r.params, "obligations": r.obl}
 		perHarness = append(perHarness, hv)
 
 		for _, v := range r.sortedViolations() {
